@@ -33,3 +33,4 @@ pub fn run() {
     });
     println!("paxos run: {r:?} {out}");
 }
+// touch
